@@ -1,7 +1,7 @@
 (** C09 — Parallel writers do not interfere.
     Property theorems only; each is closed by [exact] of a lemma proved in Proofs/. *)
 Require Import Sedpack.Model.Base Sedpack.Model.Effects Sedpack.Proofs.EffectsProofs.
-Require Sedpack.Model.Filler Sedpack.Model.Meta Sedpack.Proofs.NoDupProofs Sedpack.Proofs.CheckProofs.
+Require Sedpack.Model.Filler Sedpack.Model.Meta Sedpack.Proofs.NoDupProofs Sedpack.Proofs.CheckProofs Sedpack.Proofs.OrderProofs.
 
 (** Let every worker process perform its own list of file-system effects (mkdir with exist_ok,
     files coming to hold some content, removals).  If the workers are pairwise independent — no
@@ -29,6 +29,20 @@ Theorem c09_multi_writer_result_is_exact_and_checked :
     Meta.run_history eps (h ++ [Meta.SMulti writers]) = Meta.Ok (fs, info) -> Meta.exact_all fs info = true /\ Meta.check fs info = true.
 Proof. exact CheckProofs.multi_writer_exact_checked. Qed.
 Print Assumptions c09_multi_writer_result_is_exact_and_checked.
+
+(** "each writer's examples in its own order": whatever sessions came before and whatever sessions follow, the shards the j-th writer
+    of a multi-writer call closed for a split are found contiguously, in its close order and with exactly its examples, in the
+    depth-first shard list of that split (the payload offset 100*j identifies the writer in the model). *)
+Theorem c09_each_writers_examples_in_its_own_order :
+  forall eps : nat, 1 <= eps ->
+  forall (h1 : list Meta.session) (writers : list (list Filler.wop)) (h2 : list Meta.session) (st1 st3 : Meta.fsT * Meta.dinfo),
+  Meta.run_history eps h1 = Meta.Ok st1 -> Meta.run_history eps (h1 ++ Meta.SMulti writers :: h2) = Meta.Ok st3 ->
+  forall (j : nat) (ops : list Filler.wop), nth_error writers j = Some ops ->
+  forall s : split, exists pre post : list (list nat),
+    map (Meta.examples_of (fst st3)) (Meta.dfs Meta.FUEL (fst st3) [Filler.split_code s]) =
+    pre ++ map (OrderProofs.stored (Meta.base (fst st1) + 100 * j)) (Filler.closed_of s (Filler.session_closed eps ops)) ++ post.
+Proof. exact OrderProofs.multi_block_in_order. Qed.
+Print Assumptions c09_each_writers_examples_in_its_own_order.
 
 Theorem c09_nonvacuous :
   let w1 := [EMkdir [0]; EMkdir [0; 7]; EWrite [0; 7; 1] 11; EWrite [0; 7; 99] 12] in
